@@ -886,9 +886,13 @@ func (c *ChannelWriter) alterIndex(ctx context.Context, msgBase *commonpb.MsgBas
 		return nil
 	}
 	UpdateMsgBase(alterIndexMsg.Base, msgBase)
-	alterIndexMsg.DbName, alterIndexMsg.CollectionName = c.mapDBAndCollectionName(
-		alterIndexMsg.GetDbName(), alterIndexMsg.GetCollectionName())
+	dbName, colName := c.mapDBAndCollectionName(alterIndexMsg.GetDbName(), alterIndexMsg.GetCollectionName())
+	alterIndexMsg.DbName = dbName
+	alterIndexMsg.CollectionName = colName
 	err := c.dataHandler.AlterIndex(ctx, &api.AlterIndexParam{
+		ReplicateParam: api.ReplicateParam{
+			Database: dbName,
+		},
 		AlterIndexRequest: alterIndexMsg.AlterIndexRequest,
 	})
 	if err != nil {
